@@ -3,6 +3,9 @@
  * of it: a completion record PER USER AIO (the harness aios A, B, C are static objects), so that a function
  * that completes up to three aios (req0_ctx_send: pending receive, superseded send, the new send) can be
  * specified exactly: "this aio was completed exactly once, with this result and this message attached". */
+/* xreq.c: the woven loop invariant of xreq0_recv_cb carries its own byte facts (XQ_LOOP_BYTES, spec.h): the
+ * generic RR_LOOP_INV of modules/xrep/spec.h is used for the geometry only */
+#define RR_TRACK 0
 #include "modules/reqx/pre.h"
 #undef nni_aio_finish
 #undef nni_aio_finish_sync
